@@ -677,7 +677,10 @@ func (fsm *storeFSM) Snapshot() (raft.FSMSnapshot, error) {
 	s.mu.Lock()
 	defer s.mu.Unlock()
 
-	return &storeFSMSnapshot{Data: (*store)(fsm).data}, nil
+	// Persist runs concurrently with later calls to Apply, and Apply stamps Term
+	// and Index on the current value in place (a rejected command does not
+	// replace it): the snapshot must hold its own copy.
+	return &storeFSMSnapshot{Data: (*store)(fsm).data.Clone()}, nil
 }
 
 func (fsm *storeFSM) Restore(r io.ReadCloser) error {
